@@ -107,9 +107,13 @@ func runC14(o *hx.Out, r *hx.Rand, thorough bool) {
 	// 2. the real server with the default renderer, request context live or ended
 	var ret error
 	var relayed metadata.MD // response metadata a relaying handler passes on before it fails
+	sendFirst := false      // the handler calls grpc.SendHeader before it fails
 	svc := &hx.Svc{Unary: func(ctx context.Context, req *hx.Msg) (*hx.Msg, error) {
 		if relayed != nil {
 			grpc.SetHeader(ctx, relayed)
+		}
+		if sendFirst {
+			grpc.SendHeader(ctx, metadata.Pairs("announced", "early"))
 		}
 		return nil, ret
 	}}
@@ -251,6 +255,22 @@ func runC14(o *hx.Out, r *hx.Rand, thorough bool) {
 			}
 			if got != want {
 				o.Violate("caller does not recover the handler's code", map[string]interface{}{"code": c, "renderer": rd.name}, got, want)
+			}
+		}
+		// a handler that announces its headers with grpc.SendHeader and THEN fails: the failure still travels as the
+		// status of the reply (a unary reply is not committed before the handler has returned)
+		for i, c := range e2e {
+			if i%5 != 2 || c == 0 {
+				continue
+			}
+			ret, sendFirst = codeErr{c}, true
+			var ahdr metadata.MD
+			got := codeOfErr(ch.Invoke(context.Background(), "/verif.Svc/U", &hx.Msg{}, &hx.Msg{}, grpc.Header(&ahdr)))
+			sendFirst = false
+			d := map[string]interface{}{"code": c, "renderer": rd.name, "handler": "calls grpc.SendHeader, then fails", "client_code": got, "announced_header_received": fmt.Sprint(ahdr.Get("announced"))}
+			o.Case("end_to_end_sendheader_"+rd.name, fmt.Sprintf("EndToEnd %d %d %d", c, rd.http, got), d)
+			if got != c {
+				o.Violate("caller does not recover the handler's code when the handler had called SendHeader before failing", d, got, c)
 			}
 		}
 		// a relaying handler: it passes on the response metadata of a backend call (which, with this very client,
